@@ -244,6 +244,11 @@ func appendSnapshotVars(b []byte, s *slip.Scope) []byte {
 	for _, p := range slip.AllPackages() {
 		p.EachVarVal(func(name string, vv *slip.VarVal) {
 			if p == vv.Pkg && !vv.Const && !excludeVars[name] {
+				// A symbol that was exported but has no value yet is
+				// restored by the :export of its package.
+				if vv.Export && slip.Unbound == vv.Value() {
+					return
+				}
 				va = append(va, vv)
 			}
 		})
